@@ -10,8 +10,11 @@ import (
 func genC17(r *Rng, k int, tier string) *RunSpec {
 	o := defaultOpt()
 	o.ForwardDepth = 1 + r.Intn(4)
-	if r.Intn(3) == 0 {
+	switch r.Intn(6) {
+	case 0, 1:
 		o.Transport = "queued"
+	case 2:
+		o.Transport = "httpsig"
 	}
 	st := newStd(o)
 	a := &st.W.Servers[0]
